@@ -20,6 +20,7 @@ func simpleGet(p *rt.Peer, stream uint32, tag string) []byte {
 func TestC06(t *testing.T) {
 	r := vf.Begin(t, "C06")
 	defer r.End()
+	defer perturbReport(r)
 	r.Describe("PRNG schedules on one server connection in a synctest bubble: 1-8 concurrent responses (sizes 0,1,16383,16384,65535,65536,300000,PRNG; buffered and streamed) under an initial stream window from {0,1,100,16383,16384,65535,100000,1 MiB}, "+
 		"followed by up to 60 steps each sending 1-3 of: stream WINDOW_UPDATE, connection WINDOW_UPDATE (1..large), SETTINGS_INITIAL_WINDOW_SIZE increase/decrease (to 0, below what was already sent), MAX_FRAME_SIZE change, placed at PRNG points of response progress; after every step the bubble is quiescent. "+
 		"The peer's ledger is authoritative: a decrease binds when the server's ACK is read, grants from the moment they are sent. Safety on every DATA frame (stream window, connection window, MAX_FRAME_SIZE); progress at every quiescent point (bytes owed => a window <= 0); completion with exactly one END_STREAM once enough credit was granted. "+
